@@ -366,6 +366,10 @@ def diagnose(reader, c, o, lines):
                 return "arff-dense:both-quote-styles-after-first-row:quotes-kept"
             if o.aspect == "value" and isinstance(o.got, str) and o.exp and "\\" in o.exp.get("s", "") and o.got == o.exp["s"].replace("\\", "") and both(data):
                 return "arff-dense:backslash-in-value-with-both-quote-styles:deleted"
+            if o.kind == "raises" and both(data) and (o.what.startswith("IndexError") or any(v.endswith("\\") or v.startswith(",") for v in strs)):
+                return "arff-dense:fallback-parser-with-both-quote-styles:rejects-valid-row"
+            if "," not in devs.get("dsep", ",") and any("," in v for v in strs) and o.kind == "misread":
+                return "arff-dense:tab-or-blank-separated-with-comma-in-a-value:wrong-delimiter-inferred"
             if o.aspect == "missing-marker":
                 if any(",?," in v.replace(" ", "") for v in strs): return "arff-dense:missing-marker:question-mark-between-commas-inside-quotes"
                 if len(names) == 1: return "arff-dense:missing-marker:single-column"
@@ -420,6 +424,7 @@ def run_tables(ctx, rng):
     # ---------------- ARFF ----------------
     if ctx.quick:
         aruns = [("k2", {"K = 1": "K = 2", 'Shapes = {"nsc"}': 'Shapes = {"nsc", "nnc"}'}),
+                 ("k2ssn", {"K = 1": "K = 2", 'Shapes = {"nsc"}': 'Shapes = {"ssn"}', "SparseSet = {FALSE, TRUE}": "SparseSet = {FALSE}"}),
                  ("k1", {'Shapes = {"nsc"}': 'Shapes = {"sc", "cns", "dn", "s", "ssn"}', "Rich = FALSE": "Rich = TRUE"})]
     else:
         aruns = [("k2rich", {"K = 1": "K = 2", 'Shapes = {"nsc"}': 'Shapes = {"nsc", "sc", "cns", "dn", "s", "nnc", "ssn"}', "Rich = FALSE": "Rich = TRUE"}),
@@ -545,7 +550,10 @@ def pipeline(ctx, rng, okcases, failures):
             failures.append(("from_supervised-" + fmt, "pipeline-" + bad[0], tags, "Environments.from_supervised on the file (%s) that the reader alone reads correctly: %s | file: %r" % (how, bad[1], lines), dict(lines=lines, how=how)))
         os.remove(p)
         # ---- OpenmlSource(drop_missing=True) from a pre-filled cache: rows with a missing value go, the others stay ----
-        if fmt == "arff" and all(a["type"] in ("num", "nom") for a in attrs) and attrs[-1]["type"] == "nom" and len(attrs) >= 2:
+        # (the feature description is JSON beside the file: names that OpenmlSource._clean_name would alter - quotes
+        #  or blanks at the edges, backslashes - are outside this check)
+        clean = lambda nm: nm.strip().strip('\'"').replace('\\', '') == nm and nm != ""
+        if fmt == "arff" and all(a["type"] in ("num", "nom") for a in attrs) and attrs[-1]["type"] == "nom" and len(attrs) >= 2 and all(clean(a["name"]) for a in attrs):
             CobaContext.api_keys = {"openml": None}; CobaContext.cacher = MemoryCacher(); CobaContext.logger = NullLogger(); CobaContext.store = {}
             names = [a["name"] for a in attrs]
             data = {"data_set_description": {"id": "7", "file_id": "7", "status": "active", "default_target_attribute": names[-1]}}
